@@ -931,9 +931,9 @@ def arrival(rng):
     """How an inbound frame arrives: whole, in pieces with time in between (reads have no timeout), or only
     its beginning for now."""
     r = rng.random()
-    if r < 0.6:
+    if r < 0.5:
         return ""
-    if r < 0.85:
+    if r < 0.78:
         cuts = sorted(rng.sample(range(1, 48), rng.choice([1, 1, 2, 3])))
         return f" cut={','.join(map(str, cuts))} gap={rng.choice([0, 1, 5000, 15000, 15001, 20000, 60000, 600000])}"
     return f" hold={rng.choice([1, 1, 2, 3, 10, 50])}"
@@ -963,18 +963,35 @@ def gen_proto_case(rng, tier):
     def resp(p, shape=None):
         emit(f"resp {p} k={kind} {p_response(rng, sim, shape)}")
 
-    family = rng.choice(["cached", "cached", "cached", "fresh", "dial", "walk", "walk", "inbound", "slow", "slow",
-                         "edges", "edges"])
+    family = rng.choice(["cached", "cached", "cached", "fresh", "dial", "walk", "walk", "inbound", "inbound", "slow",
+                         "slow", "edges", "edges"])
     p = rng.choice([1, 2, 3])
     if family == "edges":
         # short scripts for arms a random dialogue rarely reaches: a request that fails / times out on the fresh
         # or on the cached substream (with responses queued behind it), events for a substream id the protocol
         # has forgotten (its connection was closed in between)
         wt = write_timeout_ms()
-        how = rng.choice(["req-fresh", "req-cached", "stale-open", "stale-fail"])
+        how = rng.choice(["req-fresh", "req-cached", "stale-open", "stale-fail", "dead-conn", "in-err", "in-err"])
         dead = rng.choice(["stall=0", "fail=0", f"slow={wt + 1}", f"slow={2 * wt}", "fail=0.1"])
-        emit(f"conn {p}")
-        if how == "req-fresh":
+        if how != "dead-conn":
+            emit(f"conn {p}")
+        if how == "dead-conn":
+            # the dial succeeds but the connection is gone before a substream can be opened on it
+            resp(p, rng.choice(["tiny", "multi"]))
+            emit(f"conn {p} dead")
+            emit(f"disc {p}")
+            emit(f"conn {p}")
+        elif how == "in-err":
+            # an inbound substream that ends with an error (reset, oversized frame) or cleanly, then a new one
+            emit(f"insub {p}")
+            emit(f"inmsg i0 {in_message(rng, sim)}".rstrip() + arrival(rng))
+            if sim.held and rng.random() < 0.5:
+                emit("inrest i0")
+            emit(f"{rng.choice(['inreset', 'inreset', 'inbig', 'inclose'])} i0")
+            emit(f"inmsg i0 {in_message(rng, sim)}".rstrip())
+            emit(f"insub {p}")
+            emit(f"inmsg i1 {in_message(rng, sim)}".rstrip() + arrival(rng))
+        elif how == "req-fresh":
             emit(f"req {p} k={kind} {p_wants(rng, sim)}")
             if rng.random() < 0.6:
                 resp(p, rng.choice(["tiny", "multi"]))          # dropped with the failing request
@@ -1496,7 +1513,7 @@ class ProtoOracle:
             # (a second inbound substream of a peer replaces the first)
             self.in_alive = {k: q for k, q in self.in_alive.items() if q != int(t[1])}
             self.in_alive[int(res[1:])] = int(t[1])
-        elif op in ("inbad", "inbig", "inclose", "inreset"):
+        elif op in ("inbad", "inbig", "inclose", "inreset") and res == "ok":
             self.in_alive.pop(int(t[1][1:]), None)
         elif op in ("inmsg", "inrest") and res == "none":
             k = int(t[1][1:])
